@@ -3,7 +3,7 @@
    definitions of C10.Model used by parse_digit_m / skip_ws_m / has_hex_prefix_m, i.e. by to_integer,
    from_chars, the strto / sto / ato families. *)
 From Tetl Require Import Lib.Base C10.Model C10.GenEquiv.
-From Tetl Require Gen.Gen_cctype.
+From Tetl Require Gen.Gen_cctype Gen.Gen_strconv.
 Local Open Scope Z_scope.
 
 Theorem C10_gen_cctype : forall c,
@@ -19,3 +19,22 @@ Proof.
         (conj (gen_isalpha_eq c) (conj (gen_isxdigit_eq c) (gen_tolower_eq c)))))).
 Qed.
 Print Assumptions C10_gen_cctype.
+
+(* the call operators of signed_overflow_checker<Int> / unsigned_overflow_checker<Int>, regenerated for
+   Int = signed/unsigned char, short, int, long, are [would_overflow_m] on the two members *)
+Theorem C10_gen_overflow_checkers : forall t q r value digit,
+  (sgn t = true ->
+     Gen_strconv.sck_i8_g value digit q r = Some (would_overflow_m t (q, r) value digit)
+     /\ Gen_strconv.sck_i16_g value digit q r = Some (would_overflow_m t (q, r) value digit)
+     /\ Gen_strconv.sck_i32_g value digit q r = Some (would_overflow_m t (q, r) value digit)
+     /\ Gen_strconv.sck_i64_g value digit q r = Some (would_overflow_m t (q, r) value digit))
+  /\ (sgn t = false ->
+     Gen_strconv.uck_u8_g value digit q r = Some (would_overflow_m t (q, r) value digit)
+     /\ Gen_strconv.uck_u16_g value digit q r = Some (would_overflow_m t (q, r) value digit)
+     /\ Gen_strconv.uck_u32_g value digit q r = Some (would_overflow_m t (q, r) value digit)
+     /\ Gen_strconv.uck_u64_g value digit q r = Some (would_overflow_m t (q, r) value digit)).
+Proof.
+  intros t q r value digit.
+  exact (conj (gen_signed_checker_eq t q r value digit) (gen_unsigned_checker_eq t q r value digit)).
+Qed.
+Print Assumptions C10_gen_overflow_checkers.
